@@ -305,6 +305,7 @@ PLANS["C30"] = {
                                spread(seed, "C30i", N(tier, 40, 800), NONINT_LOGICS, "incremental") +
                                spread(seed, "C30d", N(tier, 20, 400), ["QF_RDL", "QF_UFRDL", "QF_LRA", "QF_RDL"], "configs", mode="cnf", maxconst=1,
                                       cfgs=["proofs", "cores", "seed", "itp"], timeout=20) +
+                               spread(seed, "C30u", N(tier, 30, 600), ["QF_LRA"], "configs", mode="guarded", nnum=6, cfgs=["proofs", "seed"], timeout=20) +
                                spread(seed, "C30g", N(tier, 40, 800), ["QF_RDL", "QF_UFRDL", "QF_RDL"], "configs", mode="dlgraph", nnum=5,
                                       cfgs=["proofs", "cores", "seed"], timeout=20),
     "rule": "every check-sat of the non-integer script space under all engines and tracking options and in push/pop histories "
